@@ -483,6 +483,69 @@ def run_sinks(acc):
         acc.case(case, True, viols, key=harness.chash([kind, value]))
 
 
+def run_refusals(acc):
+    """The kernel may refuse a request psutil finds nothing wrong with (a cpuset, a per-CPU kernel thread, a limit above the
+    hard limit): the refusal must come out as an exception - a call that returns normally claims the value was set."""
+    from vlib import histories, psu
+    ps = psu.load()
+    for cal in ("3", "0,2", "1-2", "0-3", "15"):
+        for cpus in ([0], [1, 2], [3], [0, 1, 2, 3]):
+            w = histories.World(ps)
+            viols = []
+            with w:
+                w.apply(("spawn", 7, False))
+                w.apply(("new", 7))
+                proc = w.t.procs[7]
+                proc.cpus_allowed_list = cal
+                proc.affinity_refused = True
+                before = list(proc.affinity or [])
+                p = w.handles[0].obj
+                acc.count("kernel_refusals_checked")
+                try:
+                    p.cpu_affinity(list(cpus))
+                    viols.append(("refused_request_reported_as_success:affinity",
+                                  f"the kernel answered EINVAL to cpu_affinity({cpus}) (Cpus_allowed_list {cal!r}); psutil returned normally"))
+                except (OSError, ValueError, ps.Error):
+                    pass
+                if list(proc.affinity or []) != before:
+                    viols.append(("failed_request_changed_target", f"affinity {before} -> {proc.affinity}"))
+            acc.case(dict(kind="sink_refused_affinity", cal=cal, cpus=cpus), True, viols)
+    # live: kernel threads that may not be moved (PF_NO_SETAFFINITY)
+    ps2 = setup()["ps"]
+    tried = 0
+    for name in sorted(os.listdir("/proc"), key=lambda x: (len(x), x)):
+        if not name.isdigit() or tried >= 4:
+            continue
+        try:
+            with open(f"/proc/{name}/stat", "rb") as f:
+                fields = f.read().rsplit(b")", 1)[1].split()
+        except OSError:
+            continue
+        if int(fields[1]) != 2 or not int(fields[6]) & 0x04000000:
+            continue
+        pid = int(name)
+        try:
+            before = sorted(os.sched_getaffinity(pid))
+        except OSError:
+            continue
+        target = [c for c in range(os.cpu_count()) if c not in before][:1] or [before[0]]
+        tried += 1
+        viols = []
+        acc.count("kernel_refusals_checked")
+        acc.count("live_kernel_threads_tried")
+        try:
+            ps2.Process(pid).cpu_affinity(target)
+            now = sorted(os.sched_getaffinity(pid))
+            if now != target:
+                viols.append(("refused_request_reported_as_success:affinity",
+                              f"live kernel thread {pid}: cpu_affinity({target}) returned normally, the kernel still says {now}"))
+            else:
+                os.sched_setaffinity(pid, before)
+        except (OSError, ps2.Error, ValueError):
+            pass
+        acc.case(dict(kind="live_refused_affinity", cpus=target), True, viols)
+
+
 def plan(tier, seed):
     shards = [dict(kind="nice"), dict(kind="ionice"), dict(kind="rlimit"), dict(kind="sinks")]
     nparts = 4 if tier == "quick" else 12
@@ -572,13 +635,16 @@ def run_shard(shard):
         run_rlimit_names(acc)
     elif k == "sinks":
         run_sinks(acc)
+        run_refusals(acc)
         acc.exhaustive = True
     elif k == "bigcpu":
         run_bigcpu(acc, shard)
     elif k == "cases":
         for case in shard["cases"]:
             kind = case.get("kind", "")
-            if kind.startswith("sink_"):
+            if kind in ("sink_refused_affinity", "live_refused_affinity"):
+                run_refusals(acc)
+            elif kind.startswith("sink_"):
                 run_sinks(acc)
             elif kind.startswith("nice"):
                 run_nice(acc, [case["value"]])
